@@ -30,11 +30,13 @@
       STATIC hypothesis `LiveAtMost maxVariables p` of `C08_statement` for ALL programs (the invariant covers the
       method bodies of the closures in the environment, `ValLive`): every hypothesis of `C08_programs_live` is a
       decidable check on the program / the emitted code / the machine configuration, or the run itself.
-  * `C08_programs_text`   the same for `RV.run` on the TEXT of `compileRoutine`, given `C08_TextLoads`.
+  * `C08_programs_text`   the same for `RV.run` on the TEXT of `compileRoutine`, given `C08_TextLoads`;
+      `C08_programs_text_loaded` (Props/C14LoaderRV.lean): WITHOUT that hypothesis — the loader round trip is proved
+      for every compiled routine from the decidable names check `C14R_namesTextSafe`.
   KEPT AS `def : Prop`:
   * `C08_programs_statement`   `C08_programs_checked` without the two remaining decidable side hypotheses
-      (routine below 2^64, size check of the program); the loader fact is
-      `C08_loader_statement` (Props/C08RVInt.lean).
+      (routine below 2^64, size check of the program); the loader fact is proved (Props/C14LoaderRV.lean:
+      `C14R_loader`; `C08_loader_statement` of Props/C08RVInt.lean as first stated is false).
 -/
 import Scc.Props.C08RVHeap
 import Scc.Backend.TotalMock
